@@ -521,15 +521,22 @@ class SymCtx:
         return None, None
 
     # ---- exploration
-    def explore(self, fn, seeds=None, stop_when_frontier=None):
+    def explore(self, fn, seeds=None, stop_when_frontier=None,
+                yield_after=None):
         """run fn(self) on every feasible path.  Returns the list of
-        unexplored prefixes (non-empty only with stop_when_frontier)."""
+        unexplored prefixes (non-empty only with stop_when_frontier, or
+        when yield_after paths have been explored: the caller re-queues
+        the rest, which balances the load between worker processes)."""
         global CUR
         t0 = time.time()
         work = list(seeds) if seeds is not None else [[]]
         bfs = stop_when_frontier is not None
+        n0 = self.stats.paths
         while work:
             if bfs and len(work) >= stop_when_frontier:
+                return work
+            if yield_after is not None and \
+                    self.stats.paths - n0 >= yield_after:
                 return work
             if self.stats.paths >= self.max_paths or \
                     time.time() - t0 > self.max_s:
